@@ -1905,7 +1905,18 @@ struct Driver {
     w.pending = w.has_pending ? w.pending : w.sc;
     std::vector<int> v;
     for (const Stmt& s : w.pending.stmts) if (s.alive && !s.phony && !s.regen && !s.generator) v.push_back(s.id);
-    if (!v.empty()) { Stmt& s = w.pending.stmts[v[H((uint32_t)v.size())]]; if (H(2)) s.cosmetic++; else s.key += 1000; }
+    if (!v.empty()) {
+      int pick = v[H((uint32_t)v.size())];
+      // (when the generator declares sub.ninja as well: more often a change in that file alone)
+      const Stmt& gs = w.pending.stmts[g];
+      if (!gs.imp_outs.empty() && H(2) == 0) {
+        std::vector<int> sub;
+        for (int id : v) if (id >= (int)w.pending.stmts.size() / 2) sub.push_back(id);
+        if (!sub.empty()) pick = sub[H((uint32_t)sub.size())];
+      }
+      Stmt& s = w.pending.stmts[pick];
+      if (H(2)) s.cosmetic++; else s.key += 1000;
+    }
     w.has_pending = true;
     w.version["gen.src"]++;
     w.k.WriteFile("gen.src", w.SourceContent("gen.src"), true);
@@ -1934,10 +1945,12 @@ struct Driver {
       rr.stats.sig = Hash64(x, sizeof x);
     }
     int nops = prof.min_ops + (int)H((uint32_t)(prof.max_ops - prof.min_ops + 1));
+    bool has_regen = false;   // (a manifest with a generator statement gets regenerated more often than once in forty steps)
+    for (const Stmt& s : sc.stmts) if (s.regen) has_regen = true;
     for (int i = 0; i < nops && !dead; i++) {
       if (i == 0 && H(8) != 0) { DoBuild(); continue; }
       int ws[] = {prof.w_build, prof.w_edit, prof.w_touch, prof.w_del_out, prof.w_change_cmd, prof.w_change_rsp,
-                  prof.w_regen, prof.w_del_log, prof.w_del_depfile, prof.w_clean, prof.w_cleandead, prof.w_tool_ro,
+                  has_regen ? prof.w_regen * 4 : prof.w_regen, prof.w_del_log, prof.w_del_depfile, prof.w_clean, prof.w_cleandead, prof.w_tool_ro,
                   prof.w_dry, prof.w_manifest_edit, prof.w_edit_includes, prof.w_empty_source, prof.w_inflate_log, prof.w_include_churn, prof.w_block_dir, invalid_dyndep_run ? 6 : 0, prof.damage ? 8 : 0, prof.subset_then_touch ? 3 : 0, prof.w_restat_tool, prof.w_missing_source, prof.w_dyndep_stir};
       int total = 0;
       for (int x : ws) total += x;
